@@ -59,6 +59,21 @@ let () =
         let harness_trouble = note = "not-stalled" || (String.length note >= 8 && String.sub note 0 8 = "harness:") in
         if show mo <> show o || harness_trouble then begin
           incr mism; Printf.printf "MISMATCH %d %s :: model: %s\n" (ln+1) (short line) (show mo) end
+    | "SER" :: _inner :: _g :: "::" :: rest ->
+        (* NewSynchronizedRecorder over one of the recorders: calls observed inside the wrapped recorder's collector at
+           once, minus one, is the overlap; the stress oracle's overlap clause (no two calls inside at once) decides *)
+        incr n;
+        let m = kv rest in
+        let get key = try List.assoc key m with Not_found -> failwith ("missing " ^ key) in
+        if get "blocked" = "1" then begin
+          incr viol; Printf.printf "VIOL %d %s :: the synchronized recorder blocked for more than 20 s\n" (ln+1) (short line) end
+        else begin
+          let o = { so_blocked = false; so_live = nat_of_int 0; so_late = nat_of_int 0;
+                    so_overlap = nat_of_int (int_of_string (get "overlap")); so_total = z_of_int 0 } in
+          if not (c16_ok_stress [] (nat_of_int 0) (nat_of_int 0) o) then begin
+            incr viol;
+            Printf.printf "VIOL %d %s :: c16_ok_stress=false: two goroutines were inside the wrapped recorder at once\n" (ln+1) (short line) end
+        end
     | "STR" :: kind :: g :: "::" :: rest ->
         incr n;
         let m = kv rest in
